@@ -256,7 +256,12 @@ class CharsetTokenizer(Tokenizer):
             pos = start_pos
             startchar = currentchar = start_char
             for char in value:
-                tchar = charmap[ord(char)]
+                try:
+                    tchar = charmap[ord(char)]
+                except KeyError:
+                    # charset_table_to_dict() returns a plain dict: characters
+                    # it does not list are not word characters
+                    tchar = None
                 if tchar:
                     text += tchar
                 else:
